@@ -383,6 +383,21 @@ fn list_types() -> Vec<T> {
     }
     out
 }
+fn object_types() -> Vec<T> {
+    let vals = vec![T::Num, T::NumLit(1), T::Str];
+    let ixs: Vec<Option<T>> = vec![None, Some(T::Num), Some(T::Str)];
+    let mut out = vec![];
+    for ix in &ixs {
+        out.push(obj(vec![], ix.clone()));
+        for v in &vals {
+            out.push(obj(vec![("a", false, v.clone())], ix.clone()));
+            out.push(obj(vec![("a", true, v.clone())], ix.clone()));
+        }
+    }
+    out.push(obj(vec![("a", true, T::Never)], None));
+    out.push(obj(vec![("a", true, T::Never)], Some(T::Num)));
+    out
+}
 fn list_algebra(thorough: bool) -> (Vec<T>, Vec<T>) {
     let ls = list_types();
     let mut a = vec![];
@@ -883,6 +898,30 @@ fn c05(tier: &str, seed: u64) -> Value {
             }
         }
         phases.push((ls, b));
+    }
+    // phase 4: the object algebra. A ranges over object types on the key `a` (absent / required / optional, over
+    // number, 1, string) with or without an index signature (number, string), and (thorough) over the intersections of
+    // two of them; B over never, the object types and every union of two of them (several negated mapping atoms at once)
+    {
+        let os = object_types();
+        let mut a = os.clone();
+        for (i, x) in os.iter().enumerate() {
+            for (j, y) in os.iter().enumerate() {
+                if thorough || (i * 5 + j) % 7 == 0 {
+                    a.push(T::Inter(vec![x.clone(), y.clone()]));
+                }
+            }
+        }
+        let mut b = vec![T::Never];
+        b.extend(os.iter().cloned());
+        for (i, x) in os.iter().enumerate() {
+            for (j, y) in os.iter().enumerate() {
+                if i < j && (thorough || (i * 3 + j) % 2 == 0) {
+                    b.push(T::Union(vec![x.clone(), y.clone()]));
+                }
+            }
+        }
+        phases.push((a, b));
     }
     for (ptypes, pbs) in &phases {
     let types_ref = ptypes;
